@@ -353,6 +353,7 @@ func cntHarvestProgram(seed uint64, ct content.Type, v pdf.Version, variant int,
 }
 
 func replayCNTHarvest(input string) (bool, string) {
+	cntWireSetup()
 	var seed uint64
 	var ct, v, variant int
 	if _, err := fmt.Sscan(input, &seed, &ct, &v, &variant); err != nil {
@@ -363,6 +364,7 @@ func replayCNTHarvest(input string) (bool, string) {
 }
 
 func runCNTHarvest(c *Ctx) {
+	cntWireSetup()
 	r := c.R
 	// observation (not part of the property): does DrawInlineImageRaw keep the caller's
 	// data slice?  (TextShow*Raw document that they clone; this method does not say.)
